@@ -368,7 +368,10 @@ Definition scoped_address (st : state) (s : scope) (sch : schema) (k : akey) : r
   | None => load_and_cache st s sch k
   end.
 
-(** Manager.Address: the first scoped manager that knows the address. *)
+(** Manager.Address: the first scoped manager that knows the address.  (The Go
+    code walks the managers in map order; the answer depends on that order only
+    when two scopes hold the same script address, which takes the same imported
+    key in two scopes - the harness never does that.) *)
 Fixpoint mgr_address (scopes : list (scope * schema)) (st : state) (k : akey) : res (scope * nat) :=
   match scopes with
   | [] => Err st EAddrNotFound
